@@ -57,13 +57,16 @@ res["demo_without_change"] = o2.strip().splitlines()[-2:]
 os.remove(dest); sh("git checkout -q -- .")
 d = f"/verif/seeded/{newid}"; os.makedirs(d, exist_ok=True)
 shutil.copy(patch, d + "/patch.diff"); shutil.copy(demo, d + "/demo_test.go"); shutil.copy(f"{out}/notes_{n}.md", d + "/agent_notes.md")
-rc, o = sh(f"CONTRACTS=/var/tmp/contracts-frozen tools/try_seed_ov.sh seeded/{newid}/patch.diff {prop}", cwd="/verif", timeout=5400)
+pk = ",".join(sorted({os.path.dirname(f) for f in files}))
+rc, o = sh(f"PKG={pk} tools/try_seed_ov.sh seeded/{newid}/patch.diff {prop}", cwd="/verif", timeout=5400)
+if "units=0 " in o:
+    rc, o = sh(f"tools/try_seed_ov.sh seeded/{newid}/patch.diff {prop}", cwd="/verif", timeout=5400)
 ex = re.findall(r"exit=(\d+)", o); failed = re.findall(r"FAILED (\S+)", o) + re.findall(r"VIOLATION \S+ replay=\S*?([\w\.\(\)\*\$]+/[\w\-\[\]#\.]+)", o)
-meta = {"property": prop, "round": 3, "source": f"fresh sub-agent given only the property record and a scratch worktree of /repo (prompt: tools/SEED_AGENT_PROMPT.txt), change {n} of its delivery",
+meta = {"property": prop, "round": int(os.environ.get("ROUND","4")), "source": f"fresh sub-agent given only the property record and a scratch worktree of /repo (prompt: tools/SEED_AGENT_PROMPT.txt), change {n} of its delivery",
         "change": next((l for l in notes.splitlines() if l.lower().lstrip('- ').startswith('change')), "")[:600],
         "needs_to_manifest": next((l for l in notes.splitlines() if 'needs to manifest' in l.lower() or 'what it needs' in l.lower()), "")[:600],
         "demo": {"package_dir": demodir, "run": runre},
         "confirmed": res,
-        "check_result_at_seeding_time": {"command": f"CONTRACTS=/var/tmp/contracts-frozen tools/try_seed_ov.sh seeded/{newid}/patch.diff {prop}  (contracts of hook commit + node_info mirror fix, frozen copy " + subprocess.check_output(["git","-C","/repo","log","--format=%h","-1","--grep=verif-hook"],text=True).strip() + ")", "exit": int(ex[-1]) if ex else None, "failed_obligations": sorted(set(failed))[:12], "output_tail": o.strip().splitlines()[-8:]}}
+        "check_result_at_seeding_time": {"command": f"PKG={pk} tools/try_seed_ov.sh seeded/{newid}/patch.diff {prop}  (contracts of hook commit " + subprocess.check_output(["git","-C","/repo","log","--format=%h","-1","--grep=verif-hook"],text=True).strip() + ", units of the patched packages; full run if none)", "exit": int(ex[-1]) if ex else None, "failed_obligations": sorted(set(failed))[:12], "output_tail": o.strip().splitlines()[-8:]}}
 json.dump(meta, open(d + "/meta.json", "w"), indent=1)
 print(json.dumps(meta, indent=1)[:3000])
